@@ -15,6 +15,16 @@ enforce: strrev
 backend: sat
 loops: 1
 */
+/* strings of 2^31 .. 2^32 characters: the int length of strrev (finding carrier) */
+/*@unit
+name: strrev_huge
+define: U_STRREV, U_HUGE
+src: strings.c
+enforce: strrev
+backend: sat
+loops: 1
+timeout: 200
+*/
 /*@unit
 name: chomp
 define: U_CHOMP, VERIF_STRHELP_MEMCPY_AT_K
@@ -58,13 +68,25 @@ unsigned long w_n, w_cap;
 #ifdef U_STRREV
 /* vg_k2 = mirror position of vg_k (set by the harness: __CPROVER_old needs a valid index for every ghost) */
 char *strrev(register char *str)
+# ifdef U_HUGE
+__CPROVER_requires(vg_n1 >= 0x80000000UL && vg_n1 < vg_n2 && vg_n2 <= 0x100000000UL && __CPROVER_is_fresh(str, vg_n2) &&
+                   str[vg_n1] == 0 && (!(vg_j < vg_n1) || str[vg_j] != 0))
+# else
 __CPROVER_requires(VCSTR_IN_BUF_AT(str, vg_n1, vg_n2, vg_j))
+# endif
+# ifdef U_HUGE
+/* ghost indices kept below 2^30 (the loop clauses cast them to the type of i); safety and frame only */
+__CPROVER_requires(vg_k < 0x3fffffffUL && vg_k2 < 0x3fffffffUL)
+# else
 __CPROVER_requires(vg_k < vg_n2 && vg_k2 == (vg_k < vg_n1 ? vg_n1 - 1 - vg_k : 0))
+# endif
 __CPROVER_assigns(__CPROVER_object_upto(str, vg_n1 + 1), vg_len_ret)
 __CPROVER_ensures(__CPROVER_return_value == str)
 __CPROVER_ensures(vg_len_ret == vg_n1)
+# ifndef U_HUGE
 /* exact reversal */
 __CPROVER_ensures(!(vg_k < vg_n1) || str[vg_k] == __CPROVER_old(str[vg_k2]))
+# endif
 /* terminator (never longer, still terminated) and everything behind it untouched */
 __CPROVER_ensures(!(vg_k >= vg_n1) || str[vg_k] == __CPROVER_old(str[vg_k]))
 ;
